@@ -215,6 +215,19 @@ def sparse_boolean_collapse_into_one_cell(case):
     return int(np.count_nonzero(A)) == 1
 
 
+# -- sptensor.collapse adds unsigned 8-bit values up in their own dtype -------------------------------------------------
+def sparse_uint8_collapse_sum_above_255(case):
+    X = case.get("X") or {}
+    if X.get("holder") != "sptensor" or X.get("dtype") != "uint8" or case.get("reducer") not in ("default", "builtin-sum", "np.sum"):
+        return False
+    import numpy as np
+
+    A = np.zeros(tuple(X["shape"]))
+    for s_, v in zip(X["subs"], X["vals"]):
+        A[tuple(s_)] = v
+    return float(np.max(A.sum(axis=tuple(sorted(case["dims"]))))) > 255
+
+
 PREDICATES = {f.__name__: f for f in (
     kruskal_ttv_selected_singleton, oneway_sparse_operand, sparse_operand_with_one_nonzero,
     receiver_sparse_one_nonzero_dense_factor, receiver_sparse_empty, receiver_sparse_empty_all_modes_collapsed,
@@ -222,5 +235,5 @@ PREDICATES = {f.__name__: f for f in (
     sparse_mask_misplaces, sparse_mask_receiver_empty, sparse_mask_W_empty, bare_vector_narrow_dtype,
     sum_full_contraction_with_integer_part, sum_mttkrp_integer_first_part_then_float,
     unsigned_one_entry_receiver_negative_sparse_factor, both_operands_boolean, dense_boolean_through_tenmat,
-    sparse_boolean_collapse_into_one_cell,
+    sparse_boolean_collapse_into_one_cell, sparse_uint8_collapse_sum_above_255,
 )}
